@@ -210,11 +210,22 @@ func isScalarType(t types.Type) bool {
 		}
 	}
 	_, isStruct := t.Underlying().(*types.Struct)
+	if isStruct {
+		// structs of other modules (time.Time, sync types…) are opaque values
+		if n, ok := t.(*types.Named); ok && n.Obj().Pkg() != nil && !strings.HasPrefix(n.Obj().Pkg().Path(), modPath) {
+			return true
+		}
+	}
 	return !isStruct
 }
 
 // symOf materialises a symbolic value rooted at origin.
 func symOf(origin string, t types.Type, depth int) *SV {
+	if pt, ok := t.Underlying().(*types.Pointer); ok && depth <= 6 {
+		if _, isStruct := pt.Elem().Underlying().(*types.Struct); isStruct && !isScalarType(pt.Elem()) {
+			return symOf(origin, pt.Elem(), depth+1)
+		}
+	}
 	if isScalarType(t) || depth > 6 {
 		v := &SV{L: Lin{origin: 1}}
 		return v
@@ -673,6 +684,14 @@ func (si *symInterp) stmt(st ast.Stmt, fr *symFrame, s *symState) []*symState {
 						continue
 					}
 					break
+				}
+				if cell, path := si.lvalue(l, fr, s); cell != nil {
+					// a resolvable field path: only that cell becomes unknown
+					unknownCounter++
+					fresh := symOf(fmt.Sprintf("loop%d@%s:%s", unknownCounter, si.line(fr, loop), path), fr.info.TypeOf(l), 0)
+					*cell = *fresh
+					s.havoc = append(s.havoc, path)
+					continue
 				}
 				if id, ok := stripParens(root).(*ast.Ident); ok && id.Name != "_" {
 					o := fr.info.Uses[id]
